@@ -20,6 +20,14 @@ pub fn registry() -> Registry {
     Registry::with_modules(&quiver_core::builtins::core_modules())
 }
 
+/// Registry with the native file builtins attached (they only build effect requests; the effects
+/// themselves are served by whatever backend the environment has — here the mock one).
+pub fn registry_io() -> Registry {
+    let mut r = registry();
+    quiver_io::attach_file_builtins(&mut r);
+    r
+}
+
 #[derive(Debug, Clone)]
 pub enum FrontError {
     Parse(String),
